@@ -138,6 +138,27 @@ def wfCheck (c : Array Instr) : Bool :=
    | 0 => false
    | n + 1 => match c[n]? with | some .ret => true | _ => false)
 
+/-- the same scan on the dumped instruction list (what a driver stream sees); agrees with `wfCheck`
+    through `view` (`wfCheckView_view`, Proofs/OptSimView.lean) -/
+def wfCheckView (c : Array Opt.Instr) : Bool :=
+  ((List.range c.size).all fun pc =>
+    match c[pc]? with
+    | some ins =>
+      (if ins.op == "call" || ins.op == "callrec" || ins.op == "pushpc" then
+        match ins.tgt with
+        | some t => decide (0 ≤ t) && (match c[t.toNat]? with | some sc => sc.op == "scope" | none => false)
+        | none => true
+       else true) &&
+      (if ins.op == "jumpifnot" then
+        match ins.tgt with
+        | some t => t != (pc : Int) + 1
+        | none => true
+       else true)
+    | none => true) &&
+  (match c.size with
+   | 0 => false
+   | n + 1 => match c[n]? with | some i => i.op == "ret" | none => false)
+
 /-! ## one turn of the loop on the environment alone -/
 
 /-- instructions that consult the oracle record of their poll (a native / `funcIndex2` / iterator
@@ -222,6 +243,56 @@ def historyC (code : Array Instr) (ext : Nat → ExtRec) (fuel : Nat) : Nat → 
 def afterC (code : Array Instr) (ext : Nat → ExtRec) (fuel : Nat) : Nat → St → St
   | 0, s => s
   | n + 1, s => afterC code ext fuel n (nextC code ext fuel s).2
+
+/-! ## the two oracle indexings are re-indexings of each other
+
+  `callOracle` turns a poll-indexed oracle into the call-indexed oracle of the same run (the records
+  read by answer-consuming instructions, in order); `pollOracle` turns a call-indexed oracle into
+  the poll-indexed oracle of the same run (every poll gets the record at the current call index).
+  Proofs/OptSimIndex.lean proves that the runs coincide (`historyC_callOracle`, `history_pollOracle`). -/
+
+/-- one call of `Next` under a poll-indexed oracle: the records read by answer-consuming
+    instructions, in order -/
+def consumed (code : Array Instr) (ext : Nat → ExtRec) : Nat → L → St → List ExtRec
+  | fuel, l, s =>
+    (if tickAt code l = 1 then [ext s.polls] else []) ++
+    match step ⟨code, never, ext⟩ l s with
+    | .fin _ _ => []
+    | .cont l' s' =>
+      match fuel with
+      | 0 => []
+      | fuel + 1 => consumed code ext fuel l' s'
+
+/-- … over `n` successive calls -/
+def consumedH (code : Array Instr) (ext : Nat → ExtRec) (fuel : Nat) : Nat → St → List ExtRec
+  | 0, _ => []
+  | n + 1, s =>
+    consumed code ext fuel (entry ⟨code, never, ext⟩ s) s ++
+      consumedH code ext fuel n (next ⟨code, never, ext⟩ fuel s).2
+
+def callOracle (code : Array Instr) (ext : Nat → ExtRec) (fuel n : Nat) (s : St) : Nat → ExtRec :=
+  fun k => (consumedH code ext fuel n s).getD k {}
+
+/-- one call of `Next` under a call-indexed oracle: for every poll (turn at an instruction), the
+    record at the current call index -/
+def pollRecs (code : Array Instr) (extC : Nat → ExtRec) : Nat → L → St → List ExtRec
+  | fuel, l, s =>
+    (if 0 ≤ l.pc ∧ l.pc < code.size then [extC s.polls] else []) ++
+    match stepC code extC l s with
+    | .fin _ _ => []
+    | .cont l' s' =>
+      match fuel with
+      | 0 => []
+      | fuel + 1 => pollRecs code extC fuel l' s'
+
+def pollRecsH (code : Array Instr) (extC : Nat → ExtRec) (fuel : Nat) : Nat → St → List ExtRec
+  | 0, _ => []
+  | n + 1, s =>
+    pollRecs code extC fuel (entry ⟨code, never, extC⟩ s) s ++
+      pollRecsH code extC fuel n (nextC code extC fuel s).2
+
+def pollOracle (code : Array Instr) (extC : Nat → ExtRec) (fuel n : Nat) (s : St) : Nat → ExtRec :=
+  fun p => (pollRecsH code extC fuel n s).getD p {}
 
 /-- an outcome that is an answer of the real `Next`: a value, an error, or `(nil, false)` —
     not a Go panic, not a gap of the model, not the model's loop bound -/
